@@ -1201,6 +1201,25 @@ func c15Loopback(c *Ctx) {
 		// net.FlagUp = 1, net.FlagLoopback = 4
 		if proven&5 == 5 {
 			okFlags = true
+			continue
+		}
+		// two-phase form: the interface index is taken from a slice that an earlier loop filled only
+		// with the indices of up loopback interfaces (filter first, fetch second)
+		viaFiltered := false
+		p.Instrs(func(in ssa.Instruction) {
+			if in != ssa.Instruction(calls[0]) {
+				return
+			}
+			args := calls[0].Common().Args
+			arg := p.Of(args[len(args)-1])
+			if arg.Op == an.OpElem && len(arg.Args) >= 1 && arg.Args[0].Op == an.OpLoop {
+				if ph, isPhi := arg.Args[0].V.(*ssa.Phi); isPhi && c.filteredUpLoopback(ph) {
+					viaFiltered = true
+				}
+			}
+		})
+		if viaFiltered {
+			okFlags = true
 		} else {
 			nBad++
 		}
@@ -1286,4 +1305,61 @@ func flattenAppend(e *an.Expr) ([]appendItem, bool) {
 		return append(base, appendItem{add, true}), true
 	}
 	return nil, false
+}
+
+// provenFlagBits returns the net.Flags bits a path has established as set:
+// (Flags&m) != 0 for a single bit m, or (Flags&M) == M. base receives the
+// expression whose Flags were tested.
+func provenFlagBits(p *an.Path) (bits int64, base string) {
+	for _, a := range p.Atoms {
+		x, y, op, ok := effCmp(a)
+		if !ok || x.Op != an.OpBin || x.Tok != token.AND || !x.Args[0].IsField("Flags") {
+			continue
+		}
+		m, isM := x.Args[1].ConstInt()
+		z, isZ := y.ConstInt()
+		if !isM || !isZ {
+			continue
+		}
+		switch {
+		case op == token.NEQ && z == 0 && m&(m-1) == 0:
+			bits |= m
+			base = x.Args[0].Args[0].String()
+		case op == token.EQL && z == m:
+			bits |= m
+			base = x.Args[0].Args[0].String()
+		}
+	}
+	return bits, base
+}
+
+// filteredUpLoopback reports whether the slice accumulated in loop phi ph is
+// extended, on every iteration that extends it, with the Index of an
+// interface whose flags were proven to contain FlagUp and FlagLoopback on that
+// iteration's path.
+func (c *Ctx) filteredUpLoopback(ph *ssa.Phi) bool {
+	fn := ph.Parent()
+	nApp := 0
+	for _, p := range c.pathsO("R-C15-4", fn, an.PathOpts{EmitCut: true}) {
+		if !p.Cut || p.CutTo != ph.Block() {
+			continue
+		}
+		v := p.BackEdgeValue(ph)
+		if v == nil {
+			return false
+		}
+		if v.Op == an.OpLoop && v.V == ssa.Value(ph) {
+			continue // nothing appended on this iteration
+		}
+		if v.Op != an.OpAppend || len(v.Args) != 2 || !(v.Args[0].Op == an.OpLoop && v.Args[0].V == ssa.Value(ph)) || v.Args[1].Op != an.OpStruct || len(v.Args[1].Args) != 1 {
+			return false
+		}
+		el := v.Args[1].Args[0]
+		bits, base := provenFlagBits(p)
+		if bits&5 != 5 || !el.IsField("Index") || el.Args[0].String() != base {
+			return false
+		}
+		nApp++
+	}
+	return nApp >= 1
 }
